@@ -229,4 +229,3 @@ func implementedSet(c *Ctx) (*ImplementedSet, error) {
 	}
 	return res, nil
 }
-
